@@ -351,6 +351,7 @@ pub fn check_struct_case(ctx: &Ctx, reg: &Reg, s: &Spec, bytes: &[u8], prop: &st
     let nodes = gen::gen_items(&w, s, &mut d, mode, 0, &mut st);
     let lay = gen_layout(s, nodes.len(), &mut d);
     let o = run_case(reg, s, &nodes, &lay)?;
+    let _ = &lay;
     ctx.set_render(json!({"receiver": s.name(), "trait": s.tr.name(), "input": o.text, "declaration": emit_short(s), "specs": enums::deps_closure(reg, s)}));
     classify_stats(ctx, s, &st, &nodes);
     ctx.sample(|| json!({"receiver": emit_short(s), "input": o.text, "model": format!("{:?}", o.want).chars().take(300).collect::<String>()}));
@@ -385,6 +386,46 @@ pub fn check_struct_case(ctx: &Ctx, reg: &Reg, s: &Spec, bytes: &[u8], prop: &st
                     o.text,
                     e
                 ),
+            }
+            // "nothing else in the input influences any field": the same items in another layout
+            // (other split over attributes, other foreign attributes), and - when all item names are
+            // distinct - in another order, must give the same value
+            let base = erase_spans(want);
+            let mut variants: Vec<(&str, Vec<Node>, Layout)> = vec![];
+            if s.tr != Trait::FromMeta {
+                variants.push(("other-layout", nodes.clone(), gen_layout(s, nodes.len(), &mut d)));
+            }
+            let names: Vec<&str> = nodes.iter().filter_map(|n| n.name()).collect();
+            let mut uniq = names.clone();
+            uniq.sort();
+            uniq.dedup();
+            if nodes.len() >= 2 && uniq.len() == names.len() && st.flatten_handoff == 0 {
+                let mut rot = nodes.clone();
+                let k = d.range(1, rot.len() - 1);
+                rot.rotate_left(k);
+                variants.push(("reordered", rot, lay.clone()));
+            }
+            for (what, ns, l) in variants {
+                ctx.eval();
+                let o2 = run_case(reg, s, &ns, &l)?;
+                match &o2.got {
+                    Ok(v) => {
+                        if erase_spans(v) != base {
+                            fail!(
+                                format!("c01:metamorphic:{}", what),
+                                "{}: the same items give a different value when {}:\n  `{}` -> {:?}\n  `{}` -> {:?}",
+                                emit_short(s),
+                                what,
+                                o.text,
+                                base,
+                                o2.text,
+                                v
+                            );
+                        }
+                    }
+                    Err(e) => fail!(format!("c01:metamorphic:{}", what), "{}: `{}` is rejected ({}) although `{}` is accepted", emit_short(s), o2.text, e, o.text),
+                }
+                ctx.class(&format!("metamorphic:{}", what));
             }
         }
         "c02" | "c03b" => {
@@ -489,7 +530,7 @@ pub fn main(specs_json: &str, registry: Vec<Entry>) {
     let ok = match args.sub.as_str() {
         "c01" | "c02" | "c03b" => run_struct_prop(&args, &reg),
         "c09" | "c03-enums" => enums::run(&args, &reg),
-        "c16" | "c03-body" | "c08-forward" => magic::run(&args, &reg),
+        "c16" | "c03-body" | "c08-forward" | "c02-body" => magic::run(&args, &reg),
         "c08" => partition::run(&args, &reg),
         "c17" => sugg::run(&args, &reg),
         "c18b" => shapes::run(&args, &reg),
